@@ -125,8 +125,8 @@ pub fn run_fft(ctx: &mut Ctx) {
 pub fn run_eval_kate_interp(ctx: &mut Ctx) {
     let mut rng = ctx.rng("poly");
     // ---- eval_polynomial: every length 0..70 on every pool, then sampled
-    let extra: Vec<usize> = if ctx.quick() { vec![97, 128, 255, 1000, 4096] } else { vec![71, 97, 127, 128, 129, 255, 256, 257, 1000, 2047, 2048, 4095, 4096, 4097] };
-    for (ti, t) in POOLS.iter().enumerate() {
+    let extra: Vec<usize> = if ctx.quick() { vec![97, 127, 128, 129, 255, 257, 511, 513, 1000, 1023, 1025, 4096] } else { vec![71, 97, 127, 128, 129, 255, 256, 257, 1000, 2047, 2048, 4095, 4096, 4097] };
+    for (ti, t) in crate::par::POOLS9.iter().enumerate() {
         for n in (0..=70usize).chain(extra.iter().cloned()) {
             let reps = if ctx.quick() { 1 } else { 3 };
             for rep in 0..reps {
